@@ -311,7 +311,8 @@ def mod_import(draw, c):
 
 # ---- long strings: values that straddle and exceed the 8192-byte buffer of XSerializeEngine (a string of n UTF-16 units is written
 # as 2n bytes in one write(const XMLByte*, size) call) -- documentation, enumeration, default / fixed, pattern, notation identifiers
-LONG_UNITS = [9000, 4500, 13000, 6000, 20000, 4097, 8192, 3000]        # (Hypothesis favours the first entries)
+LONG_UNITS = [9000, 4500, 13000, 6000, 4097, 8192, 3000, 20000]        # (Hypothesis favours the first entries)
+LONG_PATTERN_ODDS = 11      # 1 in (n+1) long-string modules gets a long pattern (regex compilation of a 4500-char pattern costs seconds under ASan); C16 lowers it for the thorough tier
 def longstr(units, cls, salt):
     """deterministic non-periodic string of exactly `units` UTF-16 code units; no markup characters, no white space"""
     out = []; k = 0; i = 0
@@ -330,12 +331,14 @@ def longstr(units, cls, salt):
 
 def mod_long(draw, c):
     i = c['i']; tp = c['tp']
+    which = set(draw(st.lists(st.integers(1, 6), min_size=2, max_size=3, unique=True)))     # two or three of the six positions are long
     def L(salt, ascii_only=False):
+        if salt not in which: return 'v%d_%d' % (salt, i)
         return longstr(S(draw, LONG_UNITS), 'ascii' if ascii_only else S(draw, ['mixed', 'ascii']), salt + 10 * i)
     doc = L(1); e1 = L(2); dflt = L(3); fixed = L(4); pub = L(5, True); sysid = L(6)
     # long pattern (costly to compile under ASan: one case in three): the short alternative comes first so that instances never
     # have to be matched against the long literal; the pattern text itself is compared through the model dump
-    lit = longstr(S(draw, [4500, 9000, 6000]), 'ascii', 7 + i).replace('.', '_') if I(draw, 0, 2) == 0 else 'lit_%d' % i
+    lit = longstr(4500, 'ascii', 7 + i).replace('.', '_') if I(draw, 0, LONG_PATTERN_ODDS) == LONG_PATTERN_ODDS else 'lit_%d' % i
     pat = 'short[0-9]?|' + lit
     d = ('<xs:simpleType name="le%d"><xs:annotation><xs:documentation>%s</xs:documentation></xs:annotation><xs:restriction base="xs:string">'
          '<xs:enumeration value="%s"/><xs:enumeration value="short"/></xs:restriction></xs:simpleType>'
@@ -499,8 +502,9 @@ def gen_dtd(draw, idx=0):
         decls.append('<![INCLUDE[<!ATTLIST a inc CDATA "1">]]><![IGNORE[<!ELEMENT zz ANY>]]>'); kinds.add('dtd:conditional')
     if I(draw, 0, 3) == 0:
         cls = S(draw, ['mixed', 'ascii'])
-        decls.append('<!ENTITY big "%s"><!ATTLIST a bigd CDATA "%s"><!NOTATION bign PUBLIC "%s" "%s">'
-                     % (longstr(S(draw, LONG_UNITS), cls, 21 + idx), longstr(S(draw, LONG_UNITS), cls, 22 + idx), longstr(S(draw, LONG_UNITS), 'ascii', 23 + idx), longstr(S(draw, LONG_UNITS), cls, 24 + idx)))
+        which = set(draw(st.lists(st.integers(1, 4), min_size=2, max_size=2, unique=True)))
+        def DL(k, c): return longstr(S(draw, LONG_UNITS), c, 20 + k + idx) if k in which else 'dv%d' % k
+        decls.append('<!ENTITY big "%s"><!ATTLIST a bigd CDATA "%s"><!NOTATION bign PUBLIC "%s" "%s">' % (DL(1, cls), DL(2, cls), DL(3, 'ascii'), DL(4, cls)))
         kinds.add('dtd:long-string')
     decls.append('<!-- comment --><?pi in dtd?>')
     return dict(type='dtd', text='\n'.join(decls), sysid='mem:/g%d.dtd' % idx, files={'ext%d.ent' % idx: '<?xml version="1.0" encoding="UTF-8"?>ext text<b/>'}, models=models, atts=atts, kinds=kinds, has_not=has_not)
